@@ -143,6 +143,11 @@ def enum_load_cases() -> List[dict]:
                         "node": {"kind": "computer" if j != 1 else "server", "services": svcs,
                                  "applications": [{"type": "web-browser"}] if j == 0 else []},
                         "ops": ops, "focus": "load-enum"})
+    # no `defaults:` section at all: the class default, 5 ticks RESTARTING, RUNNING at the 6th
+    out.append({"defaults": {}, "section": "absent",
+                "node": {"kind": "computer", "services": [{"type": "dns-server"}, {"type": "ntp-server", "options": {}}], "applications": []},
+                "ops": [{"op": "sreq", "name": "dns-server", "r": "restart"}] + [{"op": "tick"}] * (RESTART_DEFAULT + 1) +
+                       [{"op": "sreq", "name": "ntp-server", "r": "restart"}, {"op": "tick"}], "focus": "load-enum"})
     for bad in MALFORMED:   # a value the loader cannot convert: the load raises (and the specification says so)
         out.append({"defaults": {"service_restart_duration": bad}, "section": "present",
                     "node": {"kind": "computer", "services": [{"type": "dns-server"}], "applications": []}, "ops": [], "focus": "load-enum"})
